@@ -28,3 +28,19 @@ Fixpoint reader_loop_h (raises : nat -> bool) (G : group_table) (bs : str) (fuel
           end
       end
   end.
+
+(* one read and the fold over the reads, as reader_step / reader_run of Fix/Codec.v; `done` = deliveries so far on this
+   connection, `raises i` = the dispatch of delivery number i (0-based, over the whole connection) raises *)
+Definition reader_step_h (raises : nat -> bool) (G : group_table) (bs : str) (done : nat) (buf chunk : str)
+  : str * list (message * str) * N :=
+  let b := buf ++ chunk in reader_loop_h (fun k => raises (done + k)%nat) G bs (S (length b)) b [].
+
+Fixpoint reader_run_h (raises : nat -> bool) (G : group_table) (bs : str) (done : nat) (buf : str) (chunks : list str)
+  : str * list (message * str) * list N :=
+  match chunks with
+  | [] => (buf, [], [])
+  | c :: cs =>
+      let '(buf1, out1, st1) := reader_step_h raises G bs done buf c in
+      let '(buf2, out2, sts) := reader_run_h raises G bs (done + length out1)%nat buf1 cs in
+      (buf2, out1 ++ out2, st1 :: sts)
+  end.
